@@ -3,7 +3,7 @@ from collections import Counter
 from tools.vlib import *
 from checks import brainlib
 
-THEOREMS = ["C03_brain_prob", "C03_brain_center", "C03_brain_defined", "C03_brain_prob_unconditional_refuted", "C03_table_ok"]
+THEOREMS = ["C03_brain_prob", "C03_brain_center", "C03_brain_defined", "C03_brain_prob_unconditional_refuted", "C03_table_ok", "C03_unfaithful_elements"]
 EVALS = ["bids_where (fun c => negb (b_tie f_same c)) cases", "bids_where (fun c => negb (b_tie f_tol12 c)) cases",
          "map (fun c => N.of_nat (c03_code c)) cases", "map (fun c => N.of_nat (c03_single_code c)) cases",
          "bids_where b_nontrivial cases"]
